@@ -53,6 +53,7 @@ type c10Rig struct {
 	nSnap     int
 	desc      string
 	stop      bool
+	ending    bool // the incarnation is being disposed (the end marker is written now)
 }
 
 func (r *c10Rig) OnPatPmt(b []byte) {
@@ -132,6 +133,10 @@ func (r *c10Rig) onOp(op srv.FsOp, fs *srv.RecFs) {
 			return
 		}
 		r.versions = append(r.versions, m3)
+		if m3.EndList && !r.ending {
+			r.bad("endlist-while-live", "a live playlist version written while the stream is live carries #EXT-X-ENDLIST (players stop polling)\n%s", pl)
+			return
+		}
 	}
 	for _, e := range m3.Entries {
 		lo, _ := roundHalfAmbiguous(e.Duration)
@@ -185,6 +190,7 @@ func (r *c10Rig) onOp(op srv.FsOp, fs *srv.RecFs) {
 }
 
 func (r *c10Rig) startIncarnation() {
+	r.ending = false
 	r.started = false
 	r.produced = nil
 	r.incClosed = nil
@@ -195,6 +201,7 @@ func (r *c10Rig) startIncarnation() {
 
 func (r *c10Rig) endIncarnation() {
 	// exactly what Group.delIn does
+	r.ending = true
 	r.remuxer.Dispose()
 	r.muxer.Dispose()
 	if r.stop {
@@ -413,6 +420,7 @@ func c10Server(c *fw.Ctx, i int) {
 		}
 		from := s.Notify.Len()
 		pub.RC.SetChunkSize(60000)
+		rig.ending = false
 		live = true
 		t0 := time.Now()
 		for k, m := range es.RtmpMessages(true) {
@@ -430,6 +438,7 @@ func c10Server(c *fw.Ctx, i int) {
 		time.Sleep(100 * time.Millisecond)
 		paddr := srv.Key(pub.RC.Conn)
 		_ = from
+		rig.ending = true // from here on the end marker is legitimate
 		pub.Close()
 		s.Notify.WaitSession(3*time.Second, "pub_stop", paddr)
 		time.Sleep(50 * time.Millisecond)
@@ -460,7 +469,7 @@ func init() {
 			return 160
 		},
 		CaseTimeout: func(string) time.Duration { return 3 * time.Minute },
-		Rule: "9 of 10 cases: the real Rtmp2MpegtsRemuxer and hls.Muxer wired as logic.Group wires them, on an instrumented in-memory file-system layer; fragment_duration_ms ∈ {500,700,1000,1500,2700,3000,4400} × fragment_num 1–6 × delete_threshold 0–3 × cleanup_mode 0–2; 1–3 incarnations of the same name per case; streams AVC/HEVC/none × AAC/none with frame intervals 20–250 ms, GOP lengths at, just above, half of and unrelated to the fragment target or no key frame at all (forced splits), timestamp start near 0 / 0xFFFFFF / 2^32, forward jump, backward jump, sparse audio. After EVERY file-system operation the oracle inspects the directory: live playlist parses (strict RFC 8216 subset parser), media sequence never decreases across versions and incarnations, TARGETDURATION ≥ round(every listed duration) (exact x.5 accepted either way), every listed segment exists, is a multiple of 188 bytes, starts with PAT and PMT, and (with video, no DISCONTINUITY tag) with a random-access video frame; every segment listed in the current or previous delete_threshold versions still exists. At each end: one trailing ENDLIST; the segments closed in this incarnation, minus their PAT/PMT, equal the TS packets handed to the muxer since the first segment was created, exactly once and in order; for cleanup_mode ≠ 2 the record playlist parses and lists every segment ever produced in order. 1 of 10 cases: whole server with cleanup_mode 1/2 and a second publisher of the same name before or after the delayed directory cleanup — same per-operation oracle while live, directory removed after the last end. cell = configuration.",
+		Rule: "9 of 10 cases: the real Rtmp2MpegtsRemuxer and hls.Muxer wired as logic.Group wires them, on an instrumented in-memory file-system layer; fragment_duration_ms ∈ {500,700,1000,1500,2700,3000,4400} × fragment_num 1–6 × delete_threshold 0–3 × cleanup_mode 0–2; 1–3 incarnations of the same name per case; streams AVC/HEVC/none × AAC/none with frame intervals 20–250 ms, GOP lengths at, just above, half of and unrelated to the fragment target or no key frame at all (forced splits), timestamp start near 0 / 0xFFFFFF / 2^32, forward jump, backward jump, sparse audio. After EVERY file-system operation the oracle inspects the directory: live playlist parses (strict RFC 8216 subset parser), media sequence never decreases across versions and incarnations, TARGETDURATION ≥ round(every listed duration) (exact x.5 accepted either way), every listed segment exists, is a multiple of 188 bytes, starts with PAT and PMT, and (with video, no DISCONTINUITY tag) with a random-access video frame; every segment listed in the current or previous delete_threshold versions still exists. No version written while the stream is live carries ENDLIST. At each end: one trailing ENDLIST; the segments closed in this incarnation, minus their PAT/PMT, equal the TS packets handed to the muxer since the first segment was created, exactly once and in order; for cleanup_mode ≠ 2 the record playlist parses and lists every segment ever produced in order. 1 of 10 cases: whole server with cleanup_mode 1/2 and a second publisher of the same name before or after the delayed directory cleanup — same per-operation oracle while live, directory removed after the last end. cell = configuration.",
 		Assumptions: []string{"the operation granularity is that of naza's IFileSystemLayer (create, write, close, rename, remove, writefile)", "segments are captured at their close operation, so a later deletion does not hide them from the exactly-once comparison"},
 		MinCells: 20,
 		Run: func(c *fw.Ctx, i int) {
